@@ -44,7 +44,8 @@ Loop == /\ pc = "loop"
              ELSE Return(Class(acc), acc, 0) /\ UNCHANGED attempts
         /\ UNCHANGED <<kind, n, script, i, acc>>
 
-\* External: the wrapped function returns script[attempts]; Internal: the switch
+\* the wrapped function (client code) returns script[attempts] and the switch classifies it; the machine is
+\* sequential, so the client's step and the library's step are one action here
 Classify ==
   /\ pc = "call"
   /\ LET r == script[attempts] IN
